@@ -148,6 +148,24 @@ def _real_val(v):
         return {k: _real_val(x) for k, x in v['k']}
     if 's' in v:
         return v['s']
+    if 'oa' in v:                       # object-dtype ndarray; rows given as nested 'oa' make it 2-D
+        rows = v['oa']
+        if rows and all('oa' in r for r in rows) and len({len(r['oa']) for r in rows}) == 1:
+            a = np.empty((len(rows), len(rows[0]['oa'])), dtype=object)
+            for i, r in enumerate(rows):
+                for j, x in enumerate(r['oa']):
+                    a[i, j] = _real_val(x)
+            return a
+        a = np.empty(len(rows), dtype=object)
+        for i, x in enumerate(rows):
+            a[i] = _real_val(x)
+        return a
+    if 'z' in v:                        # 0-d ndarray
+        if v['z']['obj']:
+            a = np.empty((), dtype=object)
+            a[()] = _real(v['z']['v'])
+            return a
+        return np.array(float(v['z']['v']['num']))
     if 'arr' in v:
         return np.array(v['arr']['mags'], dtype=float) * _real({'mag': 1.0, 'u': v['arr']['u']}) if v['arr']['u'] else np.array(v['arr']['mags'], dtype=float)
     return _real(v)
@@ -167,6 +185,10 @@ def _mj_val(v):
         return {'k': [[k, _mj_val(x)] for k, x in v['k']]}
     if 's' in v:
         return {'s': 1}
+    if 'oa' in v:
+        return {'oa': [_mj_val(x) for x in v['oa']]}
+    if 'z' in v:
+        return {'z': {'obj': bool(v['z']['obj']), 'v': _mj(v['z']['v'])}}
     if 'arr' in v:
         a = v['arr']
         if not a['u']:                  # a plain numeric ndarray: its own branch of to_unitless (units.py 371-374)
@@ -182,6 +204,10 @@ def _leaves(v):
         return [y for _, x in v['k'] for y in _leaves(x)]
     if 's' in v:
         return [v]
+    if 'oa' in v:
+        return [y for x in v['oa'] for y in _leaves(x)]
+    if 'z' in v:
+        return [v['z']['v']]
     if 'arr' in v:
         a = v['arr']
         return [({'mag': m, 'u': a['u']} if a['u'] else {'num': m}) for m in a['mags']]
@@ -196,6 +222,24 @@ def _has_plain_ndarray(v):
     if 'k' in v:
         return any(_has_plain_ndarray(x) for _, x in v['k'])
     return False
+
+
+def _has_zerod(v):
+    if 'z' in v:
+        return True
+    for key in ('l', 't', 'oa'):
+        if key in v:
+            return any(_has_zerod(x) for x in v[key])
+    if 'k' in v:
+        return any(_has_zerod(x) for _, x in v['k'])
+    return False
+
+
+def _call_to_unitless(cu, c):
+    """`omit`: the target argument is left out altogether (default new_unit=None)"""
+    if c.get('omit'):
+        return cu.to_unitless(_real_val(c['v']))
+    return cu.to_unitless(_real_val(c['v']), None if c['u'] is None else _real(c['u']))
 
 
 _name_cache = {}
@@ -451,7 +495,9 @@ class C09(Property):
         'helpers_polyfit_unit_independent (oracle compares with the fit of the SI magnitudes)',
         'logspace_from_lin: theorem over the reals for positive end points; the Float instantiation is compared to 1e-9',
         'a target unit of magnitude 0 (inf/nan in Python): outside the property; the model returns the token NonFinite (correspondence only), all theorems assume u.si != 0',
-        'n-d arrays, object arrays, kwargs of the NumPy wrappers (axis=...), registries with entries that are not single-dimension units',
+        'object-dtype arrays (1-D, 2-D) and 0-d arrays have theorems (elementwise_object_array, elementwise_zero_dimensional_array); '
+        'is_unitless() of an object array is True without looking inside (mirrored, outside the statement of C09, no theorem); numeric n-d arrays with n >= 2, '
+        'kwargs of the NumPy wrappers (axis=...), registries with entries that are not single-dimension units: not modelled',
     )
     anchors = tuple(('chempy/units.py', n) for n in (
         'magnitude', 'is_unitless', 'unit_of', 'rescale', 'to_unitless', 'uniform', 'get_physical_dimensionality',
@@ -471,7 +517,7 @@ class C09(Property):
             cases.append({'op': 'get_derived_unit', 'reg': [{'mag': 1.0, 'u': [[BY_DIM[i][0], 1]]} for i in range(7)], 'key': key})
             cases.append({'op': 'get_derived_unit', 'reg': _registry(rng), 'key': key})
         cases.append({'op': 'get_derived_unit', 'reg': None, 'key': 'energy'})
-        gens = [(0.30, self._g_scalar), (0.10, self._g_container), (0.07, self._g_small), (0.02, self._g_ndarray), (0.12, self._g_registry),
+        gens = [(0.30, self._g_scalar), (0.10, self._g_container), (0.07, self._g_small), (0.02, self._g_ndarray), (0.05, self._g_objarray), (0.12, self._g_registry),
                 (0.05, self._g_derived), (0.05, self._g_human), (0.04, self._g_compare), (0.06, self._g_allclose),
                 (0.05, self._g_linspace), (0.03, self._g_logspace), (0.03, self._g_concat), (0.02, self._g_tile),
                 (0.03, self._g_polyval), (0.02, self._g_polyfit), (0.03, self._g_backend)]
@@ -542,6 +588,68 @@ class C09(Property):
         u = rng.choice([{'num': 1}, None, {'mag': 1.0, 'u': []}, {'mag': 1.0, 'u': [['km', 1], ['m', -1]]}, {'mag': 1.0, 'u': [['cm', 1], ['m', -1]]},
                         {'mag': 2.0, 'u': [['km', 1], ['m', -1]]}, {'mag': 1.0, 'u': [['s', 1]]}, {'mag': 1.0, 'u': [['mmol', 1], ['mol', -1]]}])
         return {'op': 'to_unitless', 'v': v, 'u': u}
+
+    def _g_objarray(self, rng, tier):
+        """container TYPE x target: object-dtype arrays (1-D, 2-D, 0-d) of quantities / mixed quantities and plain numbers, and lists/tuples
+        nested two deep; target omitted / None / 1 / pq.dimensionless / a scaled dimensionless unit / a dimensional unit (compatible or not)"""
+        ratio_units = [[['cm', 1], ['m', -1]], [['mm', 1], ['m', -1]], [['km', 1], ['m', -1]], [['mmol', 1], ['mol', -1]], [['ms', 1], ['s', -1]], []]
+        dimless = rng.random() < 0.6
+        q = None if dimless else _q(rng)
+
+        def elem():
+            if dimless:
+                if rng.random() < 0.3:
+                    return {'num': rng.choice([2, 2.5, -1, 0.5])}
+                return {'mag': _mag(rng), 'u': rng.choice(ratio_units)}
+            return _compat_q(rng, q)
+        shape = rng.choice(['oa1', 'oa1', 'oa2', 'z', 'll', 'tt', 'lt', 'doa'])
+        k = rng.randint(1, 3)
+        if shape == 'oa1':
+            v = {'oa': [elem() for _ in range(rng.randint(0 if rng.random() < 0.05 else 1, 4))]}
+        elif shape == 'oa2':
+            v = {'oa': [{'oa': [elem() for _ in range(k)]} for _ in range(rng.randint(1, 3))]}
+        elif shape == 'z':
+            obj = rng.random() < 0.6
+            v = {'z': {'obj': obj, 'v': elem() if obj else {'num': rng.choice([3.0, 0.25, -2.0])}}}
+        elif shape == 'doa':
+            v = {'k': [['a', {'oa': [elem() for _ in range(k)]}], ['b', elem()]]}
+        else:
+            mk = {'l': lambda xs: {'l': xs}, 't': lambda xs: {'t': xs}}
+            v = mk[shape[0]]([mk[shape[1]]([elem() for _ in range(k)]) for _ in range(rng.randint(1, 3))])
+        r = rng.random()
+        lv = [x for x in _leaves(v) if 'u' in x]
+        if r < 0.15 and lv:                                    # one element of another dimension: must be refused
+            x = rng.choice(lv)
+            x['u'] = x['u'] + [[rng.choice(['s', 'kg', 'mol', 'A', 'm']), rng.choice([-1, 1])]]
+        c = {'op': 'to_unitless', 'v': v}
+        r = rng.random()
+        if dimless:
+            if r < 0.2:
+                c.update(u=None, omit=True)
+            elif r < 0.4:
+                c['u'] = None
+            elif r < 0.55:
+                c['u'] = {'num': 1}
+            elif r < 0.7:
+                c['u'] = {'mag': 1.0, 'u': []}
+            elif r < 0.9:
+                c['u'] = {'mag': rng.choice([1.0, 1.0, 2.0]), 'u': rng.choice(ratio_units[:5])}
+            else:
+                c['u'] = {'mag': 1.0, 'u': [[rng.choice(['s', 'm', 'mol']), 1]]}
+        else:
+            if r < 0.5:
+                c['u'] = _target(rng, q, True)
+            elif r < 0.65:
+                c['u'] = _target(rng, q, False)
+            elif r < 0.75:
+                c.update(u=None, omit=True)                    # dimensional elements against the default target: refusal
+            elif r < 0.85:
+                c['u'] = None
+            elif r < 0.93:
+                c['u'] = {'num': 1}
+            else:
+                c['u'] = {'mag': 1.0, 'u': []}
+        return c
 
     def _g_small(self, rng, tier):
         q = _q(rng) if rng.random() < 0.8 else {'num': rng.choice([3, 2.5])}
@@ -867,7 +975,7 @@ class C09(Property):
         op = c['op']
         J_ = lambda x: json.dumps(x)
         if op == 'to_unitless':
-            return J_(_res(cu.to_unitless(_real_val(c['v']), None if c['u'] is None else _real(c['u']))))
+            return J_(_res(_call_to_unitless(cu, c)))
         if op == 'unit_of':
             return J_(_pv(cu.unit_of(_real_val(c['v']))))
         if op == 'rescale':
@@ -1031,7 +1139,7 @@ class C09(Property):
                 return None      # 0*unit is not a unit (outside the property); the correspondence pins the behaviour (inf/nan -> NonFinite)
             ub = (F(1), F(1), (0,) * 7) if u is None else _book(u)
             bad = [x for x in leaves if 's' in x or _book(x)[2] != ub[2]]
-            call = lambda: cu.to_unitless(_real_val(c['v']), None if u is None else _real(u))
+            call = lambda: _call_to_unitless(cu, c)
             if bad:
                 return self._raises(call)
             try:
@@ -1377,7 +1485,8 @@ class C09(Property):
         op = c['op']
         if op == 'to_unitless':
             v = c['v']
-            shape = 'list' if 'l' in v else 'tuple' if 't' in v else 'dict' if 'k' in v else 'array' if 'arr' in v else 'num' if 'num' in v else 'scalar'
+            shape = ('objarray2d' if 'oa' in v and v['oa'] and 'oa' in v['oa'][0] else 'objarray' if 'oa' in v else 'zerod' if 'z' in v else 'nested2' if ('l' in v or 't' in v) and any('l' in x or 't' in x for x in v.get('l', v.get('t'))) else
+                     'list' if 'l' in v else 'tuple' if 't' in v else 'dict' if 'k' in v else 'array' if 'arr' in v else 'num' if 'num' in v else 'scalar')
             if shape == 'scalar':
                 n = len(v['u'])
                 own = any(nm in OWN_FOR_LATTICE for nm, _ in v['u'])
